@@ -748,6 +748,8 @@ contract(
         "uni": f"implies({_NOPS} and glyph.unicode is not None, result == ('u' if glyph.unicode > 0xFFFF else 'uni') + '%04X' % glyph.unicode)",
         # 3. base.suffix with a known base: production name of the base + '.' + the last suffix
         "suffix": f"implies({_NOPS} and glyph.unicode is None and {_R_SUFFIX}, result == self.prod[{_GN}.rsplit('.', 1)[0]] + '.' + {_GN}.rsplit('.', 1)[1])",
+        # 4a. ligature of known components that all have BMP code points: a uniXXXX.. name (which digits: run-time clause liga-uni)
+        "liga-uni-prefix": f"implies({_R_BASE} and {_R_LIGA} and {_R_BMP}, result.startswith('uni'))",
         # 5. anything else keeps its name
         "plain": f"implies({_R_BASE} and not {_R_LIGA}, result == {_GN})",
     },
